@@ -9,32 +9,33 @@ import (
 
 // ---- domain switches ---------------------------------------------------------------------------
 //
-// Feature combinations that hit a genuine defect of the pinned tree are kept out of the *random
+// Feature combinations that hit a genuine defect of the tree are kept out of the *random
 // generator* (never out of the oracle: Check evaluates them fully, and the witnesses in
-// findings/C17/ exercise them).  Flip a switch to true once the corresponding defect is repaired
-// in /repo; see notes/C17.md.
+// findings/C17/ exercise them) by setting a switch to false.  All seven defects found on the pinned
+// tree have been repaired by fix: commits in /repo (7c2199c, ac76796, accd666, f46199d), so every
+// switch is on; the comments describe the defect each one used to guard.  See notes/C17.md.
 const (
 	// matrix.Skew builds matrix(1, tan(ax), tan(ay), 1, 0, 0) instead of (1, tan(ay), tan(ax), 1,
 	// 0, 0): every CSS skew()/skewX()/skewY() and SVG skewX()/skewY() with a non-zero angle is
 	// rendered as the other shear.
-	genSkew = false
+	genSkew = true
 	// validation.transformFunction requires `angle != 0`: rotate(0deg), skewX(0rad) … make the
 	// whole `transform` declaration invalid.
-	genZeroAngle = false
+	genZeroAngle = true
 	// validation.transformFunction has no two-argument skew(ax, ay) (CSS Transforms 1 §10.1).
-	genSkew2 = false
+	genSkew2 = true
 	// getAngle accepts only <dimension> tokens: the unitless zero angle that CSS Transforms 1
 	// allows ("rotate(0)") is rejected.
-	genUnitlessZeroAngle = false
+	genUnitlessZeroAngle = true
 	// svg.parseTransform splits the attribute on ")" and the arguments on ' ' and ',' only: a
 	// comma between two transforms, or tab/newline/CR as white space (SVG 1.1 §7.6 BNF: comma-wsp,
 	// wsp), make svg.Parse fail for the whole document.
-	genSVGCommaBetween = false
-	genSVGTabNewline   = false
+	genSVGCommaBetween = true
+	genSVGTabNewline   = true
 	// units are matched case-sensitively (LENGTHUNITS / AngleUnits are looked up with the raw unit
 	// text): "10PX", "1Mm", "90DEG" invalidate the declaration although CSS units are ASCII
 	// case-insensitive (CSS Values 3 §5).
-	genUpperCaseUnits = false
+	genUpperCaseUnits = true
 )
 
 // |tan| above this bound is not generated for skews (the float32 angle error is amplified by
